@@ -95,6 +95,57 @@ def _bnhist(c):
     return None
 
 
+def opthist_case(rng, dt):
+    """a training history of a small model of dtype `dt` under an optimizer: backward, step, optimizer.zero_grad / module.zero_grad,
+    and user-side gradient clipping through the public .grad setter with a coefficient of either dtype. After a zeroing call the
+    buffers are the library's own again, so the gradients of the next backward must have the parameters' dtype; parameters never
+    change dtype or shape (implementation side only; the model's rule is that a zeroed buffer has the tensor's dtype)"""
+    evs = ['bw']
+    for _ in range(rng.randint(3, 9)):
+        evs.append(rng.pick(['bw', 'bw', 'step', 'optzero', 'modzero', 'clip32', 'clip64', 'clip64']))
+    evs += ['clip64', 'optzero', 'bw', 'step', 'clip32', 'modzero', 'bw']
+    return {'kind': 'opthist', 'op': 'optimizer-history', 'dt': dt, 'gdt': dt, 'nout': 1, 'zero_d': False, 'evs': evs,
+            'opt': rng.pick(['sgd', 'sgdm', 'adam', 'adamw']), 'seed': rng.randrange(2 ** 31), 'lines': ['t modes']}
+
+
+def _opthist(c):
+    sg = common.impl()
+    from synapgrad import nn, optim
+    dt = tprog.DT[c['dt']]
+    rs = np.random.RandomState(c['seed'])
+    model = nn.Sequential(nn.Linear(3, 4), nn.Tanh(), nn.Linear(4, 2))
+    for p_ in model.parameters():
+        p_.data = p_.data.astype(dt)
+    ps = model.parameters()
+    opt = {'sgd': lambda: optim.SGD(ps, lr=0.05), 'sgdm': lambda: optim.SGD(ps, lr=0.05, momentum=0.9, weight_decay=0.1),
+           'adam': lambda: optim.Adam(ps, lr=0.01), 'adamw': lambda: optim.AdamW(ps, lr=0.01)}[c['opt']]()
+    own = True          # the gradient buffers are the library's own (not assigned by the user since the last zeroing)
+    shapes = [p_.shape for p_ in ps]
+    for k, e in enumerate(c['evs']):
+        if e == 'bw':
+            x = sg.Tensor(rs.rand(5, 3).astype(dt))
+            loss = (model(x) * model(x)).sum()
+            loss.backward()
+            if own:
+                for p_ in ps:
+                    if p_._grad is None or p_._grad.dtype != dt or p_._grad.shape != p_.shape:
+                        return f'event {k}: after backward the gradient of a {c["dt"]} parameter of shape {p_.shape} is {None if p_._grad is None else (p_._grad.dtype, p_._grad.shape)}'
+        elif e == 'step':
+            if all(p_._grad is not None for p_ in ps): opt.step()
+        elif e == 'optzero': opt.zero_grad(); own = True
+        elif e == 'modzero': model.zero_grad(); own = True
+        else:
+            coef = np.float32(0.5) if e == 'clip32' else np.float64(0.5)
+            for p_ in ps:
+                if p_._grad is not None:
+                    p_.grad = sg.Tensor(p_.grad.data * coef)
+            if np.dtype(type(coef)) != np.dtype(dt): own = False
+        for p_, sh in zip(ps, shapes):
+            if p_.data.dtype != dt or p_.shape != sh:
+                return f'event {k} ({e}): a {c["dt"]} parameter became {p_.data.dtype}{p_.shape}'
+    return None
+
+
 def hist_case(rng, dt):
     """a history of backward calls over one DAG of dtype `dt`: roots are op results AND leaves (a leaf that already holds a
     gradient accumulates), upstream gradients alternate between float32 and float64; the dtype of every gradient buffer is
@@ -124,6 +175,8 @@ def cases(rng, tier):
     for dt in ('f32', 'f64'):
         for _ in range(20 * reps):
             out.append(hist_case(rng, dt))
+        for _ in range(4 * reps):
+            out.append(opthist_case(rng, dt))
     for dt in ('f32', 'f64'):
         for _ in range(6 * reps):
             out.append(bnhist_case(rng, dt))
@@ -153,6 +206,9 @@ def compare(c, mo, io):
     if c['kind'] == 'bnhist':
         f = common.outcome(lambda: _bnhist(c))
         return [('BatchNorm layer history', 'dtype kept', str(f))] if f else []
+    if c['kind'] == 'opthist':
+        f = common.outcome(lambda: _opthist(c))
+        return [('optimizer history', 'dtype kept', str(f))] if f else []
     diffs = []
     for l, m, i in zip(c['lines'], mo, io):
         if l.startswith(('t dtype', 't gdtype')) or l.startswith(('t op', 't sop', 't loss', 't leaf')):
@@ -206,6 +262,9 @@ def oracle(c):
     if c['kind'] == 'bnhist':
         f = common.outcome(lambda: _bnhist(c))
         return {'key': dict(key, cls='layer-dtype'), 'case': cc, 'what': str(f)} if f else None
+    if c['kind'] == 'opthist':
+        f = common.outcome(lambda: _opthist(c))
+        return {'key': dict(key, cls='optimizer-history-dtype'), 'case': cc, 'what': str(f)} if f else None
     io = tprog.run_program(c['lines'])
     for l, o in zip(c['lines'], io):
         if l.startswith('t dtype') and o in ('f32', 'f64') and o != c['dt']:
